@@ -13,9 +13,9 @@ extern "C" {
 #define VP_MAXDIM 9
 #endif
 
-enum { L_MUL, L_T, L_EYE, L_TRI, L_DIAG, L_TRIL, L_TRIU, L_TALL, L_WIDE, L_SQUARE, L_INNER1, L_3DIFF, L_REALS, L_SIGNED_ZERO, L_TALL2, L_LARGE_DIM, L_WIDE_EXP, L_ALIASED, L_ARENA, L_READONLY };
+enum { L_MUL, L_T, L_EYE, L_TRI, L_DIAG, L_TRIL, L_TRIU, L_TALL, L_WIDE, L_SQUARE, L_INNER1, L_3DIFF, L_REALS, L_SIGNED_ZERO, L_TALL2, L_LARGE_DIM, L_WIDE_EXP, L_ALIASED, L_ARENA, L_READONLY, L_INFINITE_ENTRY };
 static char const *const labels[] = {"product", "transpose", "eye", "tri_ones", "diag", "triL", "triU", "rows_gt_cols", "cols_gt_rows", "square",
-                                     "inner_dimension_1", "three_pairwise_different_dims", "real_valued_contents", "signed_zero_in_contents", "rows_ge_cols_plus_2", "dimension_ge_15_up_to_140", "wide_exponent_contents", "product_operands_share_storage", "operands_and_result_adjacent_in_one_block", "operands_in_read_only_memory", nullptr};
+                                     "inner_dimension_1", "three_pairwise_different_dims", "real_valued_contents", "signed_zero_in_contents", "rows_ge_cols_plus_2", "dimension_ge_15_up_to_140", "wide_exponent_contents", "product_operands_share_storage", "operands_and_result_adjacent_in_one_block", "operands_in_read_only_memory", "infinite_entry_in_contents", nullptr};
 static char const *const metrics[] = {"max_product_error_over_bound", nullptr};
 static uint8_t const dict[] = {0, 1, 2, 3, 8, 9};
 static vp_info const info = {"C09", "linalg", "", labels, metrics, 256, dict, sizeof(dict)};
@@ -79,6 +79,13 @@ static void fill(Tape &t, Ctx &cx, Mat &m, int cls)
             {
                 v = (b & 1) ? R(-0.0) : R(0.0);
                 if (b & 1) { cx.label(L_SIGNED_ZERO); }
+            }
+            else if (b < 20)
+            {
+                // an infinite entry: a cell of the product whose terms contain it (and no zero partner, no opposite infinity) is
+                // that infinity; cells whose value is indeterminate (inf * 0, inf - inf) are not judged
+                v = (b & 1) ? -std::numeric_limits<R>::infinity() : std::numeric_limits<R>::infinity();
+                cx.label(L_INFINITE_ENTRY);
             }
             else { v = R(int(b) - 128); }
         }
@@ -234,6 +241,7 @@ static void run_case(Tape &t, Ctx &cx)
                         sa += fabsl(x * y);
                     }
                     R g = Z.at(i, j);
+                    if (s != s) { ++cx.rep->excluded; continue; } // indeterminate cell (inf * 0 or inf - inf among the terms)
                     if (cls != 2)
                     {
                         if (!(g == R(s)))
